@@ -24,6 +24,7 @@ def extra(tier, rng, ev, rep, tmp):
         ins = [w for w in F.enriched_inputs(Gb, 2, extra_len=3, rng=rng, alphabet=('X', 'Y', 'Z'))]
         specs.append({'G': G, 'ka': False, 'ph': True, 'inputs': ins, 'explicit': True, 'collapse': True, 'only_explicit': True,
                       'allow_cyclic': True, 'family': 'F_rand'})
+    specs += directed_inline_ambiguity(tier, rng)
     from . import mtok
     specs += mtok.specs(C.scale(500 if tier == 'quick' else 5000), rng, explicit=True, collapse=True, only_explicit=True)
     cases = [c for c in C.pmap(c03.observe_case, specs) if not c['skip']]
@@ -45,6 +46,40 @@ def extra(tier, rng, ev, rep, tmp):
     c03.judge(PID, cases, ev, rep, tmp, 'bnf')
     if ev.cov['counts'].get('explicit_ambiguous', 0) < 300:
         raise C.MachineryFailure('vacuity: %s' % ev.cov['counts'])
+
+
+def directed_inline_ambiguity(tier, rng):
+    """inlined rules (_x) of three or more symbols that combine an ambiguous split of their prefix (ambiguous intermediate
+    forest node) with an ambiguous inlined child: the two expanders of the tree builder have to cooperate"""
+    T, R = E.tok, E.ref
+    A, B, D = T('A'), T('B'), T('D')
+
+    def rule(name, alts, keepall=False, expand1=False):
+        return {'name': name, 'expand1': expand1, 'keepall': keepall, 'alts': [{'alias': '', 'body': b} for b in alts]}
+    prefixes = [  # (rules, symbols of the prefix): two neighbours that can split a shared B / A either way
+        ([rule('a', [E.seq([A, E.opt(B)])], True), rule('b', [E.seq([E.opt(B), A])], True)], [R('a'), R('b')]),
+        ([rule('a', [E.rep(A, 1, 2)], True), rule('b', [E.seq([E.rep(A, 0, 1), B])], True)], [R('a'), R('b')]),
+        ([rule('a', [E.seq([A, E.rep(B, 0, -1)])], True), rule('b', [E.seq([E.rep(B, 0, -1), A])], True)], [R('a'), R('b')]),
+    ]
+    children = [  # (rules, the inlined ambiguous child)
+        ([rule('_y', [R('p'), R('q')]), rule('p', [D], True), rule('q', [D], True)], R('_y')),
+        ([rule('_y', [E.rep(R('i'), 1, -1)]), rule('i', [D, E.seq([D, D])], True)], R('_y')),
+        ([rule('_y', [R('p'), E.seq([R('p'), R('p')])]), rule('p', [D, E.seq([D, D])], True)], R('_y')),
+    ]
+    out = []
+    for (pr, psyms), (cr, csym) in [(p, c) for p in prefixes for c in children]:
+        for xbody in ([*psyms, csym], [*psyms, csym, A], [B, *psyms, csym]):
+            for top in ([R('_x')], [R('_x'), B], [A, R('_x')]):
+                if rng.random() < (0.5 if tier == 'quick' else 1.0):
+                    G = {'rules': [rule('start', [E.seq(list(top))]), rule('_x', [E.seq(list(xbody))])] + pr + cr}
+                    ins = set()
+                    for _ in range(30):
+                        sn = E.sample_sentence(G, rng, maxlen=8)
+                        if sn is not None:
+                            ins.add(tuple(sn))
+                    out.append({'G': G, 'ka': False, 'ph': True, 'inputs': sorted(ins), 'explicit': True, 'collapse': True, 'only_explicit': True,
+                                'family': 'F_inline_amb'})
+    return out
 
 
 def body(tier, seed, replay):
